@@ -32,7 +32,7 @@ from .c07 import FUNCS as FILTER_FUNCS
 
 ID = "C04"
 RULE = (
-    "Generated: instance (all shapes, flexible, zero durations) x rule (5 "
+    "Generated: instance (all shapes, flexible, zero durations; one in six with 10**6 added to every positive duration, so that scores differ by a relative 1e-6 while every job total stays exact in float32) x rule (5 "
     "DispatchingRuleType values as string/enum/function, observer-based MWKR, "
     "score_based_rule(f), score_based_rule_with_tie_breaker([f1..f3]) over the "
     "deterministic built-in scoring functions and MostWorkRemainingScorer) x "
@@ -101,6 +101,15 @@ def strategy(tier):
             ),
         )
     )
+    def lifted(i):
+        # large durations that differ by little (10**6 + x): relative
+        # differences of 1e-6, every job total still exact in float32
+        i = dict(i)
+        i["durations"] = [[(10**6 + x) if x else 0 for x in row] for row in i["durations"]]
+        return i
+
+    plain = inst
+    inst = st.integers(0, 10007).flatmap(lambda r: plain.map(lifted) if r % 6 == 0 else plain)
     typed = st.tuples(
         st.just("type"),
         st.integers(0, 9999).map(lambda i: sorted(RULE_FUNCS)[i % 5]),
